@@ -34,6 +34,10 @@ type Query @tag @other {
   c(i: In): Date
 }
 enum E { A @tag @deprecated B C @deprecated(reason: "") }
+extend type Query @tag(name: "ext")
+extend enum E @tag(name: "e-ext")
+extend scalar Date @tag(name: "s-ext")
+extend schema @tag(name: "schema-ext")
 input In { f: Int = 2 @tag }
 '''
 
@@ -226,6 +230,17 @@ def consumable_module_state():
     return obs
 
 
+def aliased_mutations():
+    """frame obligations (vf/aliascheck.py) on every method of ASTSchemaPrinter and every function of the modules it prints through"""
+    import inspect
+    import py_gql.sdl.ast_schema_printer as m1
+    import py_gql.utilities.ast_node_from_value as m3
+    from vf import aliascheck
+    funcs = [("ASTSchemaPrinter.%s" % n, f) for n, f in vars(m1.ASTSchemaPrinter).items() if inspect.isfunction(f)]
+    funcs += [("%s.%s" % (m.__name__.split(".")[-1], n), f) for m in (m1, m3) for n, f in vars(m).items() if inspect.isfunction(f) and f.__module__ == m.__name__]
+    return aliascheck.obligations(funcs, "serialisation", "printing changes the schema, so a later call prints something else")
+
+
 def check(tier, seed):
     from py_gql import build_schema
     from py_gql.exc import GraphQLError
@@ -245,6 +260,8 @@ def check(tier, seed):
         else:
             run.cov["discharged"] += 1
     run.cov["functions_under_contract"].append("ASTSchemaPrinter.* / ASTPrinter.* (frame: module state)")
+    from vf import aliascheck
+    aliascheck.account(run, aliased_mutations())
     # --- B. round trip ----------------------------------------------------------------------------------------------
     for name, make in schema_sources():
         for opts in OPTION_SETS:
